@@ -15,7 +15,7 @@ RULE = ("(i) Exhaustive coefficient extraction: for each n, every player i and e
         "decides the linear map completely for that n. (ii) Hypothesis: real-valued games (int/dyadic/float, v(empty)=0) "
         "held in a fully known IncompleteCooperativeGame and, for graph-shaped inputs, a GraphCooperativeGame: value == exact "
         "rational sum; efficiency; relabelling by a drawn permutation permutes the values; constructed null player gets 0; "
-        "linearity on drawn pairs/scalars; single-player and all-players entry points agree. Non-trivial: game not symmetric "
+        "linearity on drawn pairs/scalars; single-player and all-players entry points agree. A few games with n = 11..13 (beyond any plausible internal batch size) for value / efficiency / entry points. Non-trivial: game not symmetric "
         "(two coalitions of equal size with different values); distinct = hash of the game.")
 LEVEL_TEXT = ("For each listed n the linear map is decided by enumerating its basis against the orderings definition (exhaustive "
               "for that n); generated real games then test that the function really is that linear map (efficiency, symmetry, "
@@ -23,7 +23,7 @@ LEVEL_TEXT = ("For each listed n the linear map is decided by enumerating its ba
 LEVEL_NOTE = ("Trusted: itertools.permutations-based definition in vp/oracles.py (n<=7), closed form beyond, Fraction arithmetic. "
               "Float tolerance 32*2^n*eps*scale. Basis n<=6 quick, n<=9 thorough; random games to n=10.")
 TECHNIQUE = "property-based testing: exhaustive basis enumeration vs n!-orderings oracle + Hypothesis metamorphic relations (permutation, linearity, null player)"
-ASSUMPTIONS = ["float64 evaluation: equality within 32*2^n*eps*max|v|", "n<=10"]
+ASSUMPTIONS = ["float64 evaluation: equality within 32*2^n*eps*max|v|", "n<=10 for all relations; n = 11..13 for value / efficiency / entry points"]
 
 
 def _lib_shapley(n, v, single: bool):
@@ -55,6 +55,18 @@ def games(draw, max_n: int, min_n: int = 1):
     n = draw(st.integers(min_n, max_n))
     cls = draw(st.sampled_from(["int", "dyadic", "float"]))
     size = 1 << n
+    if n >= 9:
+        # too many values for Hypothesis' buffer: a drawn seed feeds a PRNG (the seed is in the case through the values)
+        import random
+        rng = random.Random(draw(st.integers(0, 2**32 - 1)))
+        v = [rng.uniform(-1e4, 1e4) if cls == "float" else float(rng.randint(-512, 512)) for _ in range(size)]
+        if cls == "dyadic":
+            v = [x / 64.0 for x in v]
+        v[0] = 0.0
+        w = [float(rng.randint(-64, 64)) for _ in range(size)]
+        w[0] = 0.0
+        return {"kind": "game", "n": n, "cls": cls, "v": v, "perm": list(draw(st.permutations(list(range(n))))),
+                "null": draw(st.integers(0, n - 1)), "w": w, "alpha": draw(st.sampled_from([-3.0, -1.0, 0.5, 2.0, 7.0])), "graph": None}
     if cls == "float":
         v = draw(st.lists(st.floats(-1e4, 1e4, allow_nan=False, allow_subnormal=False), min_size=size, max_size=size))
     else:
@@ -96,6 +108,12 @@ def check_case(case: dict) -> Result:
             res.fail(f"entry-points-differ :: n={n} player {i}: all-players {got[i]!r}, single {got1[i]!r}")
     if abs(sum(got) - v[size - 1]) > tol * n:
         res.fail(f"not-efficient :: n={n}: sum {sum(got)!r} != v(N) {v[size - 1]!r}")
+    if n >= 11:
+        # large player counts: value, efficiency, entry points only (each evaluation walks n * 2^(n-1) coalitions in Python)
+        sym = all(len({v[s] for s in range(size) if popcount(s) == k}) <= 1 for k in range(n + 1))
+        res.nontrivial = not sym
+        res.label(f"n={n}", f"cls={case['cls']}", "large-n")
+        return res
     # relabelling
     perm = case["perm"]
     gp = _lib_shapley(n, permute_game(v, n, perm), single=False)
@@ -175,11 +193,13 @@ def plan(tier: str) -> list[dict]:
     if tier == "quick":
         return ([{"mode": "basis", "ns": [1, 2, 3, 4, 5], "cost": 1}, {"mode": "basis", "ns": [6], "cost": 2}]
                 + [{"mode": "games", "max_n": 7, "examples": 350, "cost": 3} for _ in range(4)]
-                + [{"mode": "games", "max_n": 9, "min_n": 8, "examples": 12, "cost": 3}])
+                + [{"mode": "games", "max_n": 9, "min_n": 8, "examples": 12, "cost": 3},
+                   {"mode": "games", "max_n": 12, "min_n": 11, "examples": 3, "cost": 4}])
     return ([{"mode": "basis", "ns": [1, 2, 3, 4, 5, 6], "cost": 2}, {"mode": "basis", "ns": [7], "cost": 5},
              {"mode": "basis", "ns": [8], "cost": 12}, {"mode": "basis", "ns": [9], "cost": 40}]
             + [{"mode": "games", "max_n": 7, "examples": 1500, "cost": 10} for _ in range(8)]
-            + [{"mode": "games", "max_n": 10, "min_n": 8, "examples": 80, "cost": 12} for _ in range(4)])
+            + [{"mode": "games", "max_n": 10, "min_n": 8, "examples": 80, "cost": 12} for _ in range(4)]
+            + [{"mode": "games", "max_n": 13, "min_n": 11, "examples": 12, "cost": 14} for _ in range(3)])
 
 
 def run_shard(spec: dict, ctx: Ctx) -> None:
